@@ -536,6 +536,9 @@ class Machine(object):
             self.in_handler = True
             self.pc = ('P', self.index[self.on_error], 0)
             return None
+        # the program stops: no handler is active any more (a later RESUME has nothing to resume)
+        self.in_handler = False
+        self.resume_pc = None
         return ('err', e.code, line)
 
     def passed(self, value, stop, step):
